@@ -3,6 +3,7 @@ package props
 import (
 	"encoding/json"
 	"fmt"
+	"os"
 	"path"
 	"regexp"
 	"sort"
@@ -358,4 +359,118 @@ func TestC17(t *testing.T) {
 			ev.Sample(id, map[string]interface{}{"sources": src, "diagnostics": ds})
 		}
 	})
+}
+
+// TestC17Corpus: well-formedness of every diagnostic on real-world code with
+// injected annotations: packages of the standard library that import nothing
+// internal are COPIED into a scratch module with annotation lines inserted
+// above 45% of their declarations and fields (files really on disk: positions,
+// excerpts and file contents agree), analysed by the real analyzers, and every
+// diagnostic is judged: code table, analyzer, position in a file of the
+// analysed package, help link, excerpt valid by C19's predicate. No
+// append-and-rerun here (the generated programs carry that step).
+func TestC17Corpus(t *testing.T) {
+	const id = "C17"
+	dir, err := engine.Scratch()
+	if err != nil {
+		t.Fatalf("GENERATOR-BUG %v", err)
+	}
+	defer engine.RmScratch(dir)
+	if err := os.MkdirAll(dir, 0o755); err != nil {
+		t.Fatalf("GENERATOR-BUG %v", err)
+	}
+	os.WriteFile(dir+"/go.mod", []byte("module vf.test/corpus\n\ngo 1.23\n"), 0o644)
+	os.WriteFile(dir+"/doc.go", []byte("package corpus\n"), 0o644)
+	env := []string{"GOTOOLCHAIN=local"}
+	patterns := []string{"container/list", "container/ring", "container/heap", "text/tabwriter", "bufio", "encoding/csv", "encoding/hex", "text/scanner", "go/scanner", "html", "mime/quotedprintable", "index/suffixarray"}
+	if thorough() {
+		patterns = []string{"std"}
+	}
+	infos, err := engine.GoList(dir, env, patterns...)
+	if err != nil {
+		t.Fatalf("GENERATOR-BUG go list: %v", err)
+	}
+	si, sn := shard()
+	rounds := scale(1, 2)
+	n := 0
+	for round := 0; round < rounds; round++ {
+	pkgLoop:
+		for _, pi := range infos {
+			if pi.Error != nil || pi.Incomplete || len(pi.DepsErrors) > 0 || len(pi.GoFiles) == 0 || pi.Name == "main" || len(pi.SFiles)+len(pi.CgoFiles) > 0 {
+				continue
+			}
+			if strings.Contains(pi.ImportPath, "internal") || strings.Contains(pi.ImportPath, "vendor/") || pi.ImportPath == "unsafe" || pi.ImportPath == "runtime" || strings.HasPrefix(pi.ImportPath, "runtime/") || strings.HasPrefix(pi.ImportPath, "syscall") {
+				continue
+			}
+			for _, im := range pi.Imports {
+				if strings.Contains(im, "internal") || strings.HasPrefix(im, "vendor/") || im == "C" {
+					continue pkgLoop // cannot live outside the standard library
+				}
+			}
+			n++
+			if n%sn != si {
+				continue
+			}
+			cp := fmt.Sprintf("cp%d_%d", round, n)
+			cpDir := dir + "/" + cp
+			os.MkdirAll(cpDir, 0o755)
+			content := map[string]string{}
+			injected := 0
+			for fn, src := range engine.ReadPackageFiles(pi, false) {
+				pts, err := engine.InjectionPoints(fn, src)
+				out := src
+				if err == nil {
+					at := map[int][]string{}
+					for _, pt := range pts {
+						h := ev.Hash("c17", fmt.Sprint(seed()), fmt.Sprint(round), pi.ImportPath, path.Base(fn), fmt.Sprint(pt.Line))
+						v := int(h[0])*256 + int(h[1])
+						if v%100 < 45 {
+							pool := c10Annots[pt.Kind]
+							at[pt.Line] = append(at[pt.Line], pool[v%len(pool)])
+							injected++
+						}
+					}
+					if len(at) > 0 {
+						out = engine.InsertLines(src, at)
+					}
+				}
+				dst := cpDir + "/" + path.Base(fn)
+				if err := os.WriteFile(dst, out, 0o644); err != nil {
+					t.Fatalf("GENERATOR-BUG %v", err)
+				}
+				content[dst] = string(out)
+			}
+			pkgs, err := engine.LoadReal(dir, env, nil, false, "./"+cp)
+			if err != nil || len(pkgs) == 0 || len(pkgs[0].Errors) > 0 {
+				ev.Class(id, "copied std package not loadable (not judged)")
+				os.RemoveAll(cpDir)
+				continue
+			}
+			res := engine.AnalyzeReal(pkgs, engine.DefaultConfig(), true)
+			if len(res.Panics)+len(res.Errors) > 0 {
+				ev.Class(id, "copied std package with analysis failure (C10's business)")
+				os.RemoveAll(cpDir)
+				continue
+			}
+			for _, d := range res.Diags {
+				ev.Eval(id)
+				if why := c17Static(d, content, func(string) string { return cpDir }, true); why != "" {
+					rec := map[string]interface{}{"package": pi.ImportPath, "seed": seed(), "round": round, "file": path.Base(d.File), "line": d.Line, "col": d.Col, "message": d.Message, "source": content[d.File]}
+					violation(t, id, "c17corpus", "corpus", len(d.Message), rec, "annotated copy of %s: %s", pi.ImportPath, why)
+				}
+				ev.NonTrivial(id, ev.Hash("corpus", pi.ImportPath, path.Base(d.File), fmt.Sprint(d.Line, d.Col), d.Code))
+				ev.Class(id, "corpus diagnostic "+d.Code)
+			}
+			ev.ClassN(id, "corpus annotations injected", int64(injected))
+			ev.Class(id, "annotated std package checked")
+			os.RemoveAll(cpDir)
+		}
+	}
+}
+
+func init() {
+	replayers["c17corpus"] = func(data json.RawMessage) string {
+		// depends on the installed toolchain's sources: the record names package, seed and round
+		return ""
+	}
 }
